@@ -120,6 +120,47 @@ def hbProgram (c : Counts) : List Entry :=
     ⟨"iup_buffer", 8, 4, cond c.hasVariations c.maxSimplePoints⟩,
     ⟨"composite_deltas", 8, 4, cond c.hasVariations c.maxComponentDeltaStack⟩ ]
 
+/-- the count fields of `Outline` (constructor names are the Rust field names) -/
+inductive CField
+  | points | contours | max_simple_points | max_other_points | max_component_delta_stack
+  | max_stack | cvt_count | storage_count | max_twilight_points
+deriving DecidableEq, Repr
+
+def Counts.field (c : Counts) : CField → Nat
+  | .points => c.points
+  | .contours => c.contours
+  | .max_simple_points => c.maxSimplePoints
+  | .max_other_points => c.maxOtherPoints
+  | .max_component_delta_stack => c.maxComponentDeltaStack
+  | .max_stack => c.maxStack
+  | .cvt_count => c.cvtCount
+  | .storage_count => c.storageCount
+  | .max_twilight_points => c.maxTwilightPoints
+
+/-- the conditions under which a slice is carved -/
+inductive CCond
+  | always | hinted | has_variations
+deriving DecidableEq, Repr
+
+def condHolds (c : Counts) (embedded : Bool) : CCond → Bool
+  | .always => true
+  | .hinted => c.hasHinting && embedded
+  | .has_variations => c.hasVariations
+
+/-- one row `(struct field, size_of, align_of, count field, condition)` of the carve shape that
+translate/c12_src.py re-extracts from memory.rs, instantiated on concrete counts -/
+def instantiate (c : Counts) (embedded : Bool) (r : String × Nat × Nat × CField × CCond) : Entry :=
+  ⟨r.1, r.2.1, r.2.2.1, cond (condHolds c embedded r.2.2.2.2) (c.field r.2.2.2.1)⟩
+
+/-- the advertised size according to a coefficient table `(hinting, has_variations, coefficients,
+slack)` re-extracted from outline.rs -/
+def evalSizeTable (t : List (Bool × Bool × List (CField × Nat) × Nat)) (c : Counts) (hinting : Bool) : Nat :=
+  match t.find? (fun r => r.1 == hinting && r.2.1 == c.hasVariations) with
+  | none => 0
+  | some r =>
+    let payload := (r.2.2.1.map (fun kv => c.field kv.1 * kv.2)).sum
+    if payload = 0 then 0 else payload + r.2.2.2
+
 /-- field order of `struct FreeTypeOutlineMemory` (the order the hook reports) -/
 def ftFieldOrder : List String :=
   ["unscaled", "scaled", "original_scaled", "contours", "flags", "deltas", "iup_buffer",
